@@ -32,7 +32,7 @@ def plan(tier):
 def gen_case(rng: Rng, i: int, tier: str):
     r = rng.sub("k")
     if r.chance(0.15):
-        fx, pw = r.pick(hist.DECODABLE_FIXTURE_BASES)
+        fx, pw = r.pick(hist.DECODABLE_FIXTURE_BASES + [(f, None) for f in hist.UNDECODABLE_BASES] + [("lzma2bcj2.7z", None)])
         return {"fixture": fx, "open": r.pick(["path", "stream", "anon"]), "supply_password": True}
     if rng.sub("src").chance(0.3):
         # an archive of the independent reference writer: members without attributes or times, empty files next to
@@ -75,11 +75,51 @@ def _built_from_fixture(fx):
     return b
 
 
+def _listing_only(case, built, res):
+    scratch = os.path.join(driver.worker_scratch(), "c10")
+    shutil.rmtree(scratch, ignore_errors=True)
+    os.makedirs(scratch)
+    cls = {"open": case["open"], "src": "fixture", "empty": False, "undecodable": True}
+    try:
+        sess = rsess.Session(built, case["open"], {}, mirror_dir=scratch, password=None)
+        try:
+            names = [m.name for m in built.ref.members]
+            got = sess.z.getnames()
+            if got != names or [f.filename for f in sess.z.list()] != names:
+                res["violations"].append({"fp": {"oracle": "listing_untrue", "site": "getnames", "class": cls}, "detail": "names %r, the archive stores %r" % (got[:5], names[:5])})
+            sizes = [m.size if m.kind != "dir" else 0 for m in built.ref.members]
+            if [f.uncompressed for f in sess.z.list()] != sizes:
+                res["violations"].append({"fp": {"oracle": "listing_untrue", "site": "list.uncompressed", "class": cls}, "detail": "sizes listed differ from the stored ones"})
+            if not sess.anonymous:
+                a = sess.z.archiveinfo()
+                nf = len(built.ref.main["folders"])
+                solid = any(n > 1 for n in built.ref.main["substreams"]["nums"]) if built.ref.main.get("substreams") else False
+                if a.blocks != nf:
+                    res["violations"].append({"fp": {"oracle": "summary_untrue", "site": "archiveinfo.blocks", "class": cls}, "detail": "blocks %r, the archive has %d folders" % (a.blocks, nf)})
+                if bool(a.solid) != bool(solid):
+                    res["violations"].append({"fp": {"oracle": "summary_untrue", "site": "archiveinfo.solid", "class": cls}, "detail": "solid %r, stream counts say %r" % (a.solid, solid)})
+                if a.uncompressed != sum(sizes):
+                    res["violations"].append({"fp": {"oracle": "summary_untrue", "site": "archiveinfo.uncompressed", "class": cls}, "detail": "total %r, members sum to %d" % (a.uncompressed, sum(sizes))})
+        finally:
+            sess.finish()
+    except Exception as e:
+        res["violations"].append({"fp": {"oracle": "open_failed", "site": "open", "class": cls}, "detail": "listing a valid archive raised %r" % e})
+    finally:
+        shutil.rmtree(scratch, ignore_errors=True)
+    res["sigs"].append((["fixture-listing-only", case["fixture"], case["open"]], True))
+    res["probes"]["listing_of_undecodable_archive"] = 1
+    res["digest"] = digest_of([case["fixture"], [v["detail"] for v in res["violations"]]])
+    return res
+
+
 def run_case(case):
     res = {"evals": 1, "violations": [], "faults": {}, "probes": {}, "rejected": {}, "classes": {}, "sigs": [], "extra": {}}
     if "fixture" in case:
         built = _built_from_fixture(case["fixture"])
         src = "fixture"
+        if built.ref.undecoded and not any(m.name is None for m in built.ref.members):
+            # folders nobody here can decode (BCJ2): the listing and the summary need no decoding and are still checked
+            return _listing_only(case, built, res)
         if built.ref.undecoded or any(m.name is None for m in built.ref.members):
             res["extra"]["archive_skipped"] = 1
             res["digest"] = digest_of(["skipped"])
